@@ -38,6 +38,9 @@ def setup(checker_name):
     def body_none(n, x):
         return I.enter_body()
 
+    def body_bare(n, x):
+        return I.enter_body()
+
     def gen(n, x: A):
         I.gen_results.append(isinstance(np.zeros((n,), np.float32), A))
         yield 0
@@ -55,7 +58,7 @@ def setup(checker_name):
         x: A
     I.DC = DC
     I.funcs = {"new": jaxtyped(typechecker=tc)(body), "old": jaxtyped(tc(body)),
-               "none": jaxtyped(typechecker=None)(body_none)}
+               "none": jaxtyped(typechecker=None)(body_none), "bare": jaxtyped(typechecker=tc)(body_bare)}
     I.gens = {"new": jaxtyped(typechecker=tc)(gen), "none": jaxtyped(typechecker=None)(gen_none)}
     I.A = A
     I.np = np
